@@ -28,6 +28,19 @@ Fixpoint seq_assign_known (ms : list (bool * ety)) (es : list elt) : bool :=
   | _, _ => false
   end.
 
+Definition ety_assign (t t' : ety) : bool :=
+  match t, t' with
+  | TAnyE, _ => true
+  | _, TAnyE => true
+  | TNoneE, TNoneE => true
+  | TBoolE, TBoolE => true
+  | TIntE, TIntE => true
+  | TIntE, TBoolE => true
+  | TStrE, TStrE => true
+  | _, _ => false
+  end.
+
+(* the class a value is nominally an instance of, for TypeObject.can_assign *)
 Definition assignable (p v : bval) : bool :=
   match p with
   | VAny => true
@@ -44,6 +57,7 @@ Definition assignable (p v : bval) : bool :=
       | VTyped c' => sub_art c' c
       | VSub c' => sub_art (meta c') c
       | VTuple _ => sub_art CTuple c
+      | VGen g => sub_art (gen_cls g) c
       end
   | VSub c =>
       match v with
@@ -53,12 +67,46 @@ Definition assignable (p v : bval) : bool :=
       | VTyped c' => cls_eqb c' CType || (sub c' CType && isinst (OClass c) c')   (* plain type, or a metaclass of c *)
       | VSub c' => sub_art c' c
       | VTuple _ => false
+      | VGen _ => false
       end
   | VTuple ms =>
       match v with
       | VAny => true
       | VKnown (OTuple es) => seq_assign_known ms es
       | _ => false   (* tuple patterns against non-literals are outside the fragment *)
+      end
+  | VGen GSeqPat =>   (* TypedValue(Sequence).can_assign + the Exclude[str | bytes | bytearray] check *)
+      match v with
+      | VAny => true
+      | VKnown o => sub_art (class_of o) CSequence && negb (sub_art (class_of o) CStr)
+      | VTyped c => sub_art c CSequence && negb (sub_art c CStr)
+      | VSub _ => false
+      | VTuple _ => true
+      | VGen g => sub_art (gen_cls g) CSequence
+      end
+  | VGen GMapPat =>
+      match v with
+      | VAny => true
+      | VKnown o => sub_art (class_of o) CMapping
+      | VTyped c => sub_art c CMapping
+      | VGen g => sub_art (gen_cls g) CMapping
+      | _ => false
+      end
+  | VGen (GList t) =>
+      match v with
+      | VAny => true
+      | VKnown (OList es) => forallb (fun e => elt_member e t) es
+      | VTyped c => sub_art c CList
+      | VGen (GList t') => ety_assign t t'
+      | _ => false
+      end
+  | VGen (GDict k w) =>
+      match v with
+      | VAny => true
+      | VKnown (ODict kvs) => forallb (fun kv => elt_member (fst kv) k && elt_member (snd kv) w) kvs
+      | VTyped c => sub_art c CDict
+      | VGen (GDict k' w') => ety_assign k k' && ety_assign w w'
+      | _ => false
       end
   end.
 
@@ -71,6 +119,7 @@ Definition deliteral (b : bval) : bval :=
   match b with
   | VKnown o => VTyped (class_of o)
   | VTuple _ => VTyped CTuple
+  | VGen GSeqPat => VTyped CSequence   (* unannotate *)
   | _ => b
   end.
 
@@ -124,9 +173,12 @@ Definition boolab_of_b (b : bval) : boolab :=
       match o with
       | OTuple es => match es with [] => value_always_false | _ => type_always_true end
       | OClass c => known_boolab (meta_boolab c) true
+      | OList es => match es with [] => value_always_false_mutable | _ => value_always_true_mutable end
+      | ODict kvs => match kvs with [] => value_always_false_mutable | _ => value_always_true_mutable end
       | _ => known_boolab (type_boolab_exact (class_of o)) (truthy o)
       end
   | VTyped c => type_boolab c
+  | VGen g => type_boolab (gen_cls g)
   end.
 
 Definition min_boolab (a b : boolab) : boolab :=
@@ -169,6 +221,7 @@ Inductive pred :=
 | PEquals (l : obj) (use_is : bool)
 | PIn (ls : list obj)
 | PLenCmp (op : cmpop) (n : Z)
+| PLenPat (n : nat) (has_star : bool)     (* patma.LenPredicate *)
 | PAlways.
 
 Definition pred_isassignable (pat : list bval) (positive_only : bool) (s : sval) (positive : bool)
@@ -235,6 +288,8 @@ Definition pred_in (ls : list obj) (s : sval) (positive : bool) : list sval :=
 Definition len_of_value (s : sval) : option Z :=
   match s with
   | SV (VTuple ms) [] => if existsb fst ms then None else Some (Z.of_nat (length ms))
+  | SV (VKnown (OList _)) [] => None    (* KNOWN_MUTABLE_TYPES *)
+  | SV (VKnown (ODict _)) [] => None
   | SV (VKnown o) [] => option_map Z.of_nat (len_of o)
   | _ => None
   end.
@@ -271,19 +326,91 @@ Definition pred_lencmp (op : cmpop) (n : Z) (s : sval) (positive : bool) : list 
   | None => [len_transform s op' n]
   end.
 
+(* the generic argument of a tuple-typed value (get_generic_arg_for_type(tuple, ctx, 0)):
+   Any for a bare tuple, the common member type of a SequenceValue; a union of different
+   member types cannot be written in this fragment (the harness decoder rejects it) *)
+Definition ety_eqb (a b : ety) : bool :=
+  match a, b with
+  | TAnyE, TAnyE | TNoneE, TNoneE | TBoolE, TBoolE | TIntE, TIntE | TStrE, TStrE => true
+  | _, _ => false
+  end.
+Definition tuple_arg (b : bval) : ety :=
+  match b with
+  | VTuple ((_, t) :: ms) => if forallb (fun m => ety_eqb (snd m) t) ms then t else TAnyE
+  | _ => TAnyE
+  end.
+Definition tuple_typed (b : bval) : bool :=
+  match b with VTyped CTuple => true | VTuple _ => true | _ => false end.
+
+(* patma.LenPredicate (after the C02 repair: the exact-length narrowing of a tuple of unknown
+   length only in the positive branch) *)
+Definition pred_lenpat (n : nat) (has_star : bool) (s : sval) (positive : bool) : list sval :=
+  match len_of_value s with
+  | Some k =>
+      let m := if has_star then Z.leb (Z.of_nat n) k else Z.eqb k (Z.of_nat n) in
+      if Bool.eqb m positive then [s] else []
+  | None =>
+      if positive && negb has_star && tuple_typed (sbase s)
+      then [plain (VTuple (repeat (false, tuple_arg (sbase s)) n))]
+      else [s]
+  end.
+
 Definition apply_pred (p : pred) (s : sval) (positive : bool) : list sval :=
   match p with
   | PIsAssignable pat po => pred_isassignable pat po s positive
   | PEquals l use_is => pred_equals l use_is s positive
   | PIn ls => pred_in ls s positive
   | PLenCmp op n => pred_lencmp op n s positive
+  | PLenPat n star => pred_lenpat n star s positive
   | PAlways => if positive then [s] else []
   end.
 
 (* ------------------------------------------------------------------ *)
 (* concrete constraints (stacked_scopes.Constraint) on the one variable *)
 
+(* the class a TypedValue-like value carries in `.typ` *)
+Definition nominal_cls (b : bval) : cls :=
+  match b with
+  | VTyped c => c
+  | VTuple _ => CTuple
+  | VGen g => gen_cls g
+  | _ => CObject
+  end.
+
+(* ConstraintType.is_instance (assert_is_instance): real isinstance / issubclass, no promotion *)
+Definition apply_isinstance (c : cls) (positive : bool) (s : sval) : list sval :=
+  match sbase s with
+  | VAny => if positive then [plain (VTyped c)] else [plain VAny]
+  | VKnown o => if Bool.eqb (isinst o c) positive then [s] else []
+  | VSub t => if Bool.eqb (isinst (OClass t) c) positive then [s] else []
+  | b =>
+      let t := nominal_cls b in
+      if positive then (if sub t c then [s] else if sub c t then [plain (VTyped c)] else [])
+      else (if sub t c then [] else [s])
+  end.
+
+(* ConstraintType.is_value (assert_is / assert_is_not) *)
+Definition apply_isvalue (l : obj) (positive : bool) (s : sval) : list sval :=
+  if positive then
+    match sbase s with
+    | VAny => [plain (VKnown l)]
+    | VKnown o => if obj_eqb o l then [s] else []
+    | VSub t => match l with
+                | OClass k => if sub k t then [plain (VKnown l)] else []
+                | _ => []
+                end
+    | b => if isinst l (nominal_cls b) then [plain (VKnown l)] else []
+    end
+  else
+    match sbase s with
+    | VKnown o => if obj_eqb o l then [] else [s]
+    | _ => [s]
+    end.
+
 Inductive constr :=
+| KIsInstance (c : cls) (positive : bool)
+| KIsValue (l : obj) (positive : bool)
+| KAddAnnot (name : N) (positive : bool)      (* add_annotation (HasAttrGuard): membership unchanged *)
 | KTruthy (positive : bool)
 | KValueObject (t : value) (positive : bool)   (* is_value_object: TypeGuard *)
 | KPred (p : pred) (positive : bool)
@@ -292,6 +419,9 @@ Inductive constr :=
 
 Fixpoint apply_constr (k : constr) (s : sval) {struct k} : list sval :=
   match k with
+  | KIsInstance c positive => apply_isinstance c positive s
+  | KIsValue l positive => apply_isvalue l positive s
+  | KAddAnnot name positive => if positive then [annotate s [HasAttrExt name]] else [s]
   | KTruthy positive =>
       let b := boolab_of_b (sbase s) in
       if positive then (if is_safely_false b then [] else [s])
@@ -337,6 +467,9 @@ Fixpoint apply_acon (a : acon) : list constr :=
 
 Definition flip (k : constr) : constr :=
   match k with
+  | KIsInstance c p => KIsInstance c (negb p)
+  | KIsValue l p => KIsValue l (negb p)
+  | KAddAnnot n p => KAddAnnot n (negb p)
   | KTruthy p => KTruthy (negb p)
   | KValueObject t p => KValueObject t (negb p)
   | KPred q p => KPred q (negb p)
@@ -360,6 +493,28 @@ Definition constrain (v : value) (a : acon) : value := apply_all (apply_acon a) 
 (* ------------------------------------------------------------------ *)
 (* conditions *)
 
+(* subpatterns on the elements of a sequence / the values of a mapping *)
+Inductive epat := EWild | ELit (e : elt) | EClass (t : ety).
+Definition epat_match (p : epat) (e : elt) : bool :=
+  match p with
+  | EWild => true
+  | ELit l => elt_py_eq e l
+  | EClass t => elt_member e t
+  end.
+Fixpoint epats_match (ps : list epat) (es : list elt) : bool :=
+  match ps, es with
+  | [], _ => true
+  | p :: ps', e :: es' => epat_match p e && epats_match ps' es'
+  | _ :: _, [] => false
+  end.
+Fixpoint lookup_elt (k : elt) (kvs : list (elt * elt)) : option elt :=
+  match kvs with
+  | [] => None
+  | (k', v) :: r => if elt_py_eq k' k then Some v else lookup_elt k r
+  end.
+Definition seq_elems (o : obj) : option (list elt) :=
+  match o with OTuple es => Some es | OList es => Some es | _ => None end.
+
 Inductive cond :=
 | CTruthy                                   (* if x *)
 | CIsInstance (cs : list cls)               (* isinstance(x, (c1, ...)) *)
@@ -373,9 +528,31 @@ Inductive cond :=
 | CMatchClass (c : cls)                     (* case c(): *)
 | CAlways                                   (* case _: *)
 | COpaque (b : bool)                        (* a condition that says nothing about x (value b at run time) *)
+| CSeqIs (po : bool)                        (* sequence pattern, part 1: x is a Sequence that is not str/bytes *)
+| CSeqLen (n : nat) (has_star : bool)       (* sequence pattern, part 2: number of subpatterns *)
+| CElems (pre : list epat) (has_star : bool) (post : list epat)
+                                            (* sequence pattern, part 3: the subpatterns (constraints on the
+                                               elements, none on x) *)
+| CMapIs (po : bool)                        (* mapping pattern, part 1: x is a Mapping *)
+| CMapKeys (kps : list (elt * epat))        (* mapping pattern, part 2: keys present and value subpatterns *)
+| CPAnd (a b : cond)                        (* conjunction of the parts of one pattern (in source order) *)
+| CAssertInst (c : cls)                     (* the statement assert_is_instance(x, c) went through *)
+| CAssertIs (l : obj)                       (* assert_is(x, l) went through (assert_is_not: CNot) *)
+| CHasAttr (name : N) (b : bool)            (* hasattr(x, "name") (run-time value b) *)
 | CNot (c : cond)
 | CAnd (a b : cond)
 | COr (a b : cond).
+
+(* patma.visit_MatchSequence: `case [p1, ..., *rest, ..., qm]` is the conjunction of
+   IsAssignablePredicate(MatchableSequence, positive_only = len(patterns) > 1 or no star),
+   LenPredicate(number of non-star subpatterns, has_star) and the subpattern constraints *)
+Definition match_seq (pre : list epat) (star : bool) (post : list epat) : cond :=
+  let n := length pre + length post in
+  let po := orb (Nat.ltb 1 (n + (if star then 1 else 0))) (negb star) in
+  CPAnd (CSeqIs po) (CPAnd (CSeqLen n star) (CElems pre star post)).
+(* patma.visit_MatchMapping: positive_only = len(keys) > 0 *)
+Definition match_map (kps : list (elt * epat)) : cond :=
+  CPAnd (CMapIs (negb (Nat.eqb (length kps) 0))) (CMapKeys kps).
 
 Fixpoint cond_acon (c : cond) : acon :=
   match c with
@@ -391,6 +568,15 @@ Fixpoint cond_acon (c : cond) : acon :=
   | CMatchClass c => ALeaf (KPred (PIsAssignable [VTyped c] true) true)
   | CAlways => ALeaf (KPred PAlways true)
   | COpaque _ => ANull
+  | CSeqIs po => ALeaf (KPred (PIsAssignable [VGen GSeqPat] po) true)
+  | CSeqLen n star => ALeaf (KPred (PLenPat n star) true)
+  | CElems _ _ _ => ANull
+  | CMapIs po => ALeaf (KPred (PIsAssignable [VGen GMapPat] po) true)
+  | CMapKeys _ => ANull
+  | CPAnd a b => AAnd (cond_acon a) (cond_acon b)
+  | CAssertInst c => ALeaf (KIsInstance c true)
+  | CAssertIs l => ALeaf (KIsValue l true)
+  | CHasAttr n _ => ALeaf (KAddAnnot n true)
   | CNot c => invert (cond_acon c)
   | CAnd a b => AAnd (cond_acon b) (cond_acon a)   (* AndConstraint.make(reversed(...)) *)
   | COr a b => AOr (cond_acon a) (cond_acon b)
@@ -398,6 +584,21 @@ Fixpoint cond_acon (c : cond) : acon :=
 
 Definition narrow (v : value) (c : cond) (pol : bool) : value :=
   constrain v (if pol then cond_acon c else invert (cond_acon c)).
+
+(* visit_BoolOp visits its second operand in a sub-scope where x is already narrowed by the
+   first one (by its negation for `or`) and then merges the sub-scopes back: the value of x the
+   whole condition's constraint is applied to is V plus that narrowed copy *)
+Fixpoint boolop_merge (v : value) (c : cond) : value :=
+  match c with
+  | CNot c => boolop_merge v c
+  | CAnd a _ => v ++ narrow v a true
+  | COr a _ => v ++ narrow v a false
+  | _ => v
+  end.
+
+(* what `if <c>: ... else: ...` makes of x end to end (for and/or whose operands are not and/or) *)
+Definition narrow_e2e (v : value) (c : cond) (pol : bool) : value :=
+  constrain (boolop_merge v c) (if pol then cond_acon c else invert (cond_acon c)).
 
 (* the tested type of a condition (for "never widens") *)
 Fixpoint tested (c : cond) : value :=
@@ -414,6 +615,15 @@ Fixpoint tested (c : cond) : value :=
   | CMatchClass c => [plain (VTyped c)]
   | CAlways => []
   | COpaque _ => []
+  | CSeqIs _ => [plain (VGen GSeqPat)]
+  | CSeqLen _ _ => [plain (VTyped CTuple)]   (* LenPredicate narrows tuple-typed values to tuples *)
+  | CElems _ _ _ => []
+  | CMapIs _ => [plain (VGen GMapPat)]
+  | CMapKeys _ => []
+  | CPAnd a b => tested a ++ tested b
+  | CAssertInst c => [plain (VTyped c)]
+  | CAssertIs l => [plain (VKnown l)]
+  | CHasAttr _ _ => []
   | CNot c => tested c
   | CAnd a b => tested a ++ tested b
   | COr a b => tested a ++ tested b
@@ -444,6 +654,33 @@ Fixpoint holds (c : cond) (o : obj) : option bool :=
   | CMatchClass c => Some (isinst o c)
   | CAlways => Some true
   | COpaque b => Some b
+  | CSeqIs _ => Some (match seq_elems o with Some _ => true | None => false end)
+  | CSeqLen n star =>
+      match len_of o with
+      | Some k => Some (if star then Nat.leb n k else Nat.eqb k n)
+      | None => None
+      end
+  | CElems pre star post =>
+      match seq_elems o with
+      | Some es => Some (epats_match pre es && epats_match (rev post) (rev es))
+      | None => Some false
+      end
+  | CMapIs _ => Some (match o with ODict _ => true | _ => false end)
+  | CMapKeys kps =>
+      match o with
+      | ODict kvs => Some (forallb (fun kp => match lookup_elt (fst kp) kvs with
+                                               | Some v => epat_match (snd kp) v
+                                               | None => false end) kps)
+      | _ => Some false
+      end
+  | CPAnd a b =>
+      match holds a o with
+      | Some true => holds b o
+      | r => r
+      end
+  | CAssertInst c => Some (isinst o c)
+  | CAssertIs l => Some (obj_eqb o l)
+  | CHasAttr _ b => Some b
   | CNot c => option_map negb (holds c o)
   | CAnd a b =>
       match holds a o with
@@ -456,3 +693,40 @@ Fixpoint holds (c : cond) (o : obj) : option bool :=
       | r => r
       end
   end.
+
+(* ------------------------------------------------------------------ *)
+(* decision skeletons: the control flow of the predicate / constraint bodies over abstract
+   boolean inputs.  Gen/NarrowPreds.v is translated from the Python source on every run and
+   proved equal to these (Properties/C02.v); Proofs/NarrowSkel.v proves that the model's
+   predicates above are these skeletons applied to the model's primitive tests. *)
+Inductive pres := RDrop | RValue | RPattern.
+Inductive ctype := T_is_instance | T_is_value | T_is_value_object | T_is_truthy | T_predicate
+                 | T_add_annotation | T_one_of | T_all_of.
+Inductive eqop := OIs | OIsNot | OEqual | ONotEqual.
+
+Definition isassignable_skel (ov asg univ po positive : bool) : pres :=
+  if positive then
+    (if negb ov then RDrop else if asg then (if univ then RPattern else RValue) else RPattern)
+  else if negb po && asg && negb univ then RDrop else RValue.
+
+Definition lenpat_skel (known : bool) (k n : Z) (star positive is_typed is_tuple : bool) : pres :=
+  if known then
+    (let m := if star then Z.geb k n else Z.eqb k n in
+     if Bool.eqb m positive then RValue else RDrop)
+  else if positive && negb star && is_typed && is_tuple then RPattern else RValue.
+
+Definition truthy_skel (sf st positive : bool) : pres :=
+  if positive then (if sf then RDrop else RValue) else (if st then RDrop else RValue).
+
+Definition valueobject_skel (positive : bool) : pres := if positive then RPattern else RValue.
+
+Definition model_operator (positive use_is : bool) : eqop :=
+  match positive, use_is with
+  | true, true => OIs | false, true => OIsNot | true, false => OEqual | false, false => ONotEqual
+  end.
+
+Definition model_dispatch : list ctype :=
+  [T_is_instance; T_is_value; T_is_value_object; T_is_truthy; T_predicate; T_add_annotation; T_one_of; T_all_of].
+
+Definition interp (r : pres) (s : sval) (pattern : list sval) : list sval :=
+  match r with RDrop => [] | RValue => [s] | RPattern => pattern end.
